@@ -385,11 +385,19 @@ func mkFns(id int) valid.Name2FnMap {
 		return valid.Name2FnMap{"even": evenFn("call2")} // overrides the global one: every entry of the map is independent
 	case 3:
 		return valid.Name2FnMap{"required": oddFn("call3")} // replaces a built-in for this call only
+	case 4:
+		return valid.Name2FnMap{"odd": bareOddFn} // reports through GetJoinValidErrStr WITHOUT trailing texts
 	}
 	return nil
 }
 
-const NFnSets = 4
+func bareOddFn(errBuf *strings.Builder, validName, objName, fieldName string, tv reflect.Value) {
+	if tv.Kind() == reflect.String && len(tv.String())%2 == 0 {
+		errBuf.WriteString(valid.GetJoinValidErrStr(objName, fieldName, tv.String()))
+	}
+}
+
+const NFnSets = 5
 
 var globalsDone bool
 
